@@ -223,3 +223,23 @@ Proof.
     apply (Hd x); [now left|assumption].
   - apply IH; auto. intros y Hy. apply Hd. now right.
 Qed.
+
+Lemma firstn_add {X} (n m : nat) (l : list X) : firstn (n + m) l = firstn n l ++ firstn m (skipn n l).
+Proof.
+  revert l; induction n as [|n IH]; intros l; [reflexivity|].
+  destruct l as [|x l]; cbn [plus firstn skipn app]; [now rewrite firstn_nil|]. now rewrite IH.
+Qed.
+
+Lemma py_slice_app {X} x y z (l : list X) :
+  0 <= x -> x <= y -> y <= z -> py_slice x y l ++ py_slice y z l = py_slice x z l.
+Proof.
+  intros Hx Hxy Hyz. unfold py_slice, zfirstn, zskipn.
+  replace (Z.to_nat (z - x)) with (Z.to_nat (y - x) + Z.to_nat (z - y))%nat by lia.
+  rewrite firstn_add. f_equal. f_equal. rewrite skipn_skipn'. f_equal. lia.
+Qed.
+
+Lemma py_slice_empty {X} x (l : list X) : py_slice x x l = [].
+Proof. unfold py_slice, zfirstn. now rewrite Z.sub_diag. Qed.
+
+Lemma py_slice_all {X} (l : list X) : py_slice 0 (zlen l) l = l.
+Proof. unfold py_slice, zskipn. cbn [Z.to_nat skipn]. rewrite Z.sub_0_r. apply zfirstn_all. lia. Qed.
